@@ -233,7 +233,7 @@ def c06(ctx):
     # 1. design: lock discipline + linearizability, all interleavings
     runs = []
     for cfg in (["MC_Sys_conc_q.cfg", "MC_Sys_conc3_q.cfg", "MC_Sys_live.cfg"] if quick else ["MC_Sys_conc.cfg", "MC_Sys_conc3_q.cfg", "MC_Sys_live.cfg"]):
-        r = ctx.tlc_expect_ok("MC_Sys.tla", cfg, timeout=7000, xmx="40g")
+        r = ctx.tlc_expect_ok("MC_Sys.tla", cfg, timeout=7000, xmx="24g")
         runs.append(dict(config=cfg, distinct=r["distinct"]))
     cov["design_runs"] = runs
     # 2. gate-driven replay of TLC interleavings, race detector on
